@@ -71,12 +71,12 @@ theorem p_quantLoop {sat : EvalM Value} (hs : E.P sat) (isSome : Bool) (cs : Lis
     unfold quantLoop
     exact E.bind (p_bracket E _ hs) (fun _ => ih _)
 
-theorem p_callFunction (env : Env) (hc : ∀ b, E.P (env.call b)) (args : Ctx) (body : Ast) (rt : FType) :
+theorem p_callFunction (env : Env) (hc : ∀ b, E.Q (env.call b)) (args : Ctx) (body : Ast) (rt : FType) :
     E.P (callFunction env args body rt) := by
   unfold callFunction
-  exact E.bind (p_bracket E _ (hc body)) (fun _ => E.pure _)
+  exact E.bind (E.pushPop _ id (hc body)) (fun _ => E.pure _)
 
-theorem p_invokePositional (env : Env) (hc : ∀ b, E.P (env.call b))
+theorem p_invokePositional (env : Env) (hc : ∀ b, E.Q (env.call b))
     (hp : ∀ n a, E.Good (env.bifPos n a)) (f : Value) (args : List Value) :
     E.P (invokePositional env f args) := by
   unfold invokePositional
@@ -87,7 +87,7 @@ theorem p_invokePositional (env : Env) (hc : ∀ b, E.P (env.call b))
     · exact E.pure _
   · exact E.pure _
 
-theorem p_invokeNamed (env : Env) (hc : ∀ b, E.P (env.call b))
+theorem p_invokeNamed (env : Env) (hc : ∀ b, E.Q (env.call b))
     (hn : ∀ n a, E.Good (env.bifNamed n a)) (f : Value) (args : Value) :
     E.P (invokeNamed env f args) := by
   unfold invokeNamed
@@ -115,8 +115,10 @@ local macro "p_step" : tactic =>
 
 mutual
 /-- The closure built for any syntax tree leaves the scope as it found it, provided
-function bodies do (`hc`). -/
-theorem p_evalStep (E : EvalPred) (env : Env) (hc : ∀ b, E.P (env.call b))
+function bodies touch at most the context pushed for their arguments (`hc`: a body runs only inside the
+`push … pop` bracket of `callFunction`, so the companion `Q` is all that is needed of it — at the model level a
+body may be a boxed context, which writes its entries into that context). -/
+theorem p_evalStep (E : EvalPred) (env : Env) (hc : ∀ b, E.Q (env.call b))
     (hIt : ∀ st, E.Good (env.iter st)) (hBp : ∀ n a, E.Good (env.bifPos n a)) (hBn : ∀ n a, E.Good (env.bifNamed n a)) : (a : Ast) → E.P (evalStep env a)
   | .add a b | .and a b | .contextEntry a b | .contextTypeEntry a b | .div a b | .eq a b | .exp a b
   | .formalParameter a b | .functionDefinition a b | .functionType a b | .ge a b | .gt a b | .in a b
@@ -273,14 +275,14 @@ theorem p_evalStep (E : EvalPred) (env : Env) (hc : ∀ b, E.P (env.call b))
     split
     · exact E.bind (p_evalStep E env hc hIt hBp hBn a) (fun _ => E.pure _)
     · exact E.pure _
-theorem p_evalList (E : EvalPred) (env : Env) (hc : ∀ b, E.P (env.call b))
+theorem p_evalList (E : EvalPred) (env : Env) (hc : ∀ b, E.Q (env.call b))
     (hIt : ∀ st, E.Good (env.iter st)) (hBp : ∀ n a, E.Good (env.bifPos n a)) (hBn : ∀ n a, E.Good (env.bifNamed n a)) : (as : List Ast) → E.P (evalList env as)
   | [] => by simp only [evalList]; exact E.pure _
   | a :: as => by
     simp only [evalList]
     exact E.bind (p_evalStep E env hc hIt hBp hBn a) (fun _ => E.bind (p_evalList E env hc hIt hBp hBn as) (fun _ => E.pure _))
 /-- The loop of a context literal writes into the context pushed for it and nowhere else. -/
-theorem q_evalContextEntries (E : EvalPred) (env : Env) (hc : ∀ b, E.P (env.call b))
+theorem q_evalContextEntries (E : EvalPred) (env : Env) (hc : ∀ b, E.Q (env.call b))
     (hIt : ∀ st, E.Good (env.iter st)) (hBp : ∀ n a, E.Good (env.bifPos n a)) (hBn : ∀ n a, E.Good (env.bifNamed n a)) :
     (es : List Ast) → (acc : Ctx) → E.Q (evalContextEntries env es acc)
   | [], acc => by simp only [evalContextEntries]; exact E.qPure _
@@ -291,7 +293,7 @@ theorem q_evalContextEntries (E : EvalPred) (env : Env) (hc : ∀ b, E.P (env.ca
     split
     · exact E.qBind (E.qSetEntry _ _) (fun _ => q_evalContextEntries E env hc hIt hBp hBn es _)
     · exact q_evalContextEntries E env hc hIt hBp hBn es _
-theorem p_evalQuantified (E : EvalPred) (env : Env) (hc : ∀ b, E.P (env.call b))
+theorem p_evalQuantified (E : EvalPred) (env : Env) (hc : ∀ b, E.Q (env.call b))
     (hIt : ∀ st, E.Good (env.iter st)) (hBp : ∀ n a, E.Good (env.bifPos n a)) (hBn : ∀ n a, E.Good (env.bifNamed n a)) :
     (items : List Ast) → (pos : Nat) → E.P (evalQuantified env items pos)
   | [], pos => by simp only [evalQuantified]; exact E.pure _
@@ -313,7 +315,7 @@ theorem p_evalQuantified (E : EvalPred) (env : Env) (hc : ∀ b, E.P (env.call b
       · exact E.pure _
       · exact E.bind ih (fun _ => E.pure _)
     · exact ih
-theorem p_evalIteration (E : EvalPred) (env : Env) (hc : ∀ b, E.P (env.call b))
+theorem p_evalIteration (E : EvalPred) (env : Env) (hc : ∀ b, E.Q (env.call b))
     (hIt : ∀ st, E.Good (env.iter st)) (hBp : ∀ n a, E.Good (env.bifPos n a)) (hBn : ∀ n a, E.Good (env.bifNamed n a)) :
     (items : List Ast) → (pos : Nat) → E.P (evalIteration env items pos)
   | [], pos => by simp only [evalIteration]; exact E.pure _
@@ -359,7 +361,7 @@ theorem p_call (num : NumOps) (bp : String → List Value → Outcome Value)
   | zero => intro b; exact hdiv
   | succ n ih =>
     intro b
-    exact p_evalStep E (mkEnv num bp bn v n) ih (by cases n <;> exact hi) (by cases n <;> exact hp)
+    exact p_evalStep E (mkEnv num bp bn v n) (fun b => E.qOfP (ih b)) (by cases n <;> exact hi) (by cases n <;> exact hp)
       (by cases n <;> exact hn) b
 
 theorem p_eval (num : NumOps) (bp : String → List Value → Outcome Value)
@@ -368,7 +370,7 @@ theorem p_eval (num : NumOps) (bp : String → List Value → Outcome Value)
     (hi : ∀ st, E.Good (v.iter st)) (hp : ∀ n a, E.Good (bp n a)) (hn : ∀ n a, E.Good (bn n a))
     (fuel : Nat) (a : Ast) : E.P (evalWith v num bp bn fuel a) := by
   unfold evalWith
-  exact p_evalStep E _ (p_call E num bp bn v hdiv hi hp hn fuel) (by cases fuel <;> exact hi)
+  exact p_evalStep E _ (fun b => E.qOfP (p_call E num bp bn v hdiv hi hp hn fuel b)) (by cases fuel <;> exact hi)
     (by cases fuel <;> exact hp) (by cases fuel <;> exact hn) a
 
 end Dmn.Eval
